@@ -6,68 +6,50 @@ namespace StoneVerif.Graph
 /-! ## the shape of one invocation -/
 
 theorem expand_node_type {g : Graph} (hda : docsAgree g = true) {a : Id} {nd : Node} (hnd : g.node? a = some nd)
-    (ht : nd.isType = true) {kids : List Item} {rts : List Id} (he : expand g (.node a) = .ok (kids, rts)) :
-    ∃ fs io, allFields g a = .ok fs ∧ routesIo g (specDocs g nd.ns nd.docRefs).2 = .ok io ∧
-      kids = fs.map (fun of => Item.field of.1 of.2 nd.ns)
-        ++ (nd.parent.toList ++ (specDocs g nd.ns nd.docRefs).1 ++ io
-            ++ (if nd.kind == .struct then nd.subtypes else [])).map .node ∧
-      rts = (specDocs g nd.ns nd.docRefs).2 := by
+    (ht : nd.isType = true) {kids : List Item} (he : expand g (.node a) = .ok kids) :
+    kids = nd.fields.map (fun f => Item.field a f nd.ns)
+      ++ (nd.parent.toList ++ (specDocs g nd.ns nd.docRefs).1 ++ (specDocs g nd.ns nd.docRefs).2
+          ++ (if nd.kind == .struct then nd.subtypes else [])).map .node := by
   have hdocs := docsAgree_node hda hnd
-  simp only [expand, hnd] at he
+  simp only [expand, hnd, hdocs] at he
   rcases kind_cases nd with h | h | h
   · split at he
     · rename_i hk; simp [Node.isRoute, hk] at h
     · rename_i hk; simp [Node.isAlias, hk] at h
-    · split at he
-      · simp at he
-      · rename_i fs hfs
-        rw [hdocs] at he
-        simp only at he
-        split at he
-        · simp at he
-        · rename_i io hio
-          simp only [Except.ok.injEq, Prod.mk.injEq] at he
-          exact ⟨fs, io, hfs, hio, he.1.symm, he.2.symm⟩
+    · simp only [Except.ok.injEq] at he
+      exact he.symm
   · simp [ht] at h
   · simp [ht] at h
 
 theorem expand_node_alias {g : Graph} (hda : docsAgree g = true) {a : Id} {nd : Node} (hnd : g.node? a = some nd)
-    (hk : nd.kind = .alias) {kids : List Item} {rts : List Id} (he : expand g (.node a) = .ok (kids, rts)) :
-    ∃ io, routesIo g (specDocs g nd.ns nd.docRefs).2 = .ok io ∧
-      kids = (nd.target.refs ++ (specDocs g nd.ns nd.docRefs).1 ++ io).map .node ∧
-      rts = (specDocs g nd.ns nd.docRefs).2 := by
+    (hk : nd.kind = .alias) {kids : List Item} (he : expand g (.node a) = .ok kids) :
+    kids = (nd.target.refs ++ (specDocs g nd.ns nd.docRefs).1 ++ (specDocs g nd.ns nd.docRefs).2).map .node := by
   have hdocs := docsAgree_node hda hnd
-  simp only [expand, hnd, hk, hdocs] at he
-  split at he
-  · simp at he
-  · rename_i io hio
-    simp only [Except.ok.injEq, Prod.mk.injEq] at he
-    exact ⟨io, hio, he.1.symm, he.2.symm⟩
+  simp only [expand, hnd, hk, hdocs, Except.ok.injEq] at he
+  exact he.symm
 
-theorem expand_node_kind {g : Graph} {a : Id} {kids : List Item} {rts : List Id}
-    (he : expand g (.node a) = .ok (kids, rts)) : ∃ nd, g.node? a = some nd ∧ nd.isRoute = false := by
+theorem expand_node_route {g : Graph} (hda : docsAgree g = true) {a : Id} {nd : Node} (hnd : g.node? a = some nd)
+    (hk : nd.kind = .route) {kids : List Item} (he : expand g (.node a) = .ok kids) :
+    kids = (nd.arg.refs ++ nd.result.refs ++ nd.error.refs ++ (specDocs g nd.ns nd.docRefs).1
+      ++ (specDocs g nd.ns nd.docRefs).2).map .node := by
+  have hdocs := docsAgree_node hda hnd
+  simp only [expand, hnd, hk, hdocs, Except.ok.injEq] at he
+  exact he.symm
+
+theorem expand_node_some {g : Graph} {a : Id} {kids : List Item}
+    (he : expand g (.node a) = .ok kids) : ∃ nd, g.node? a = some nd := by
   simp only [expand] at he
   split at he
   · simp at he
   · rename_i nd hnd
-    refine ⟨nd, hnd, ?_⟩
-    rcases kind_cases nd with h | h | h
-    · exact h.2.2
-    · exact h.2.2.1
-    · simp [h.2.2.2] at he
+    exact ⟨nd, hnd⟩
 
 theorem expand_field_eq {g : Graph} {o : Id} {f : Field} {ctx ns : String}
-    (hparse : parseDocs g ctx f.docRefs = .ok (specDocs g ns f.docRefs)) {kids : List Item} {rts : List Id}
-    (he : expand g (.field o f ctx) = .ok (kids, rts)) :
-    ∃ io, routesIo g (specDocs g ns f.docRefs).2 = .ok io ∧
-      kids = (f.ty.refs ++ (specDocs g ns f.docRefs).1 ++ io).map .node ∧
-      rts = (specDocs g ns f.docRefs).2 := by
-  simp only [expand, hparse] at he
-  split at he
-  · simp at he
-  · rename_i io hio
-    simp only [Except.ok.injEq, Prod.mk.injEq] at he
-    exact ⟨io, hio, he.1.symm, he.2.symm⟩
+    (hparse : parseDocs g ctx f.docRefs = .ok (specDocs g ns f.docRefs)) {kids : List Item}
+    (he : expand g (.field o f ctx) = .ok kids) :
+    kids = (f.ty.refs ++ (specDocs g ns f.docRefs).1 ++ (specDocs g ns f.docRefs).2).map .node := by
+  simp only [expand, hparse, Except.ok.injEq] at he
+  exact he.symm
 
 /-! ## what a finished walk knows -/
 
@@ -86,47 +68,45 @@ theorem key_field {it : Item} {o : Id} {f : Field} (h : it.key = .field o f "") 
     simp only [Item.key, Item.field.injEq] at h
     exact ⟨ctx, by rw [h.1, h.2.1]⟩
 
-/-- a marked node: its invocation succeeded, everything it called is marked, its routes are kept -/
+/-- a marked node: its invocation succeeded and everything it called is marked -/
 theorem seen_node {g : Graph} {stack0 : List Item} {st : St} (hinv : Inv g stack0 [] st) {a : Id}
     (ha : Item.node a ∈ st.seen) :
-    ∃ kids rts, expand g (.node a) = .ok (kids, rts) ∧ (∀ c ∈ kids, c.key ∈ st.seen) ∧ (∀ r ∈ rts, r ∈ st.routes) := by
-  obtain ⟨it, kids, rts, h1, _, h3, h4, h5⟩ := hinv.done _ ha
+    ∃ kids, expand g (.node a) = .ok kids ∧ (∀ c ∈ kids, c.key ∈ st.seen) := by
+  obtain ⟨it, kids, h1, _, h3, h4⟩ := hinv.done _ ha
   rw [key_node h1] at h3
-  exact ⟨kids, rts, h3, fun c hc => covered_nil.1 (h4 c hc), h5⟩
+  exact ⟨kids, h3, fun c hc => covered_nil.1 (h4 c hc)⟩
 
-/-- a marked field: the references of its type are marked; what its doc mentions is marked or kept -/
+/-- a marked node `b` among the calls `l.map .node` of a finished invocation -/
+theorem kid_seen {st : St} {kids : List Item} (hk : ∀ c ∈ kids, c.key ∈ st.seen) {b : Id}
+    (hb : Item.node b ∈ kids) : Item.node b ∈ st.seen := by
+  simpa [Item.key] using hk (.node b) hb
+
+/-- a marked field: the references of its type and what its doc refers to are marked -/
 theorem seen_field {g : Graph} {stack0 : List Item} {st : St} (hinv : Inv g stack0 [] st) {o : Id} {f : Field}
     (hf : Item.field o f "" ∈ st.seen) :
     ∃ no, g.node? o = some no ∧ f ∈ no.fields ∧ (∀ b ∈ f.ty.refs, Item.node b ∈ st.seen) ∧
-      (∀ b ∈ docTargets g no.ns f.docRefs, Item.node b ∈ st.seen ∨ b ∈ st.routes) := by
-  obtain ⟨it, kids, rts, h1, h2, h3, h4, h5⟩ := hinv.done _ hf
+      (∀ b ∈ docTargets g no.ns f.docRefs, Item.node b ∈ st.seen) := by
+  obtain ⟨it, kids, h1, h2, h3, h4⟩ := hinv.done _ hf
   obtain ⟨ctx, rfl⟩ := key_field h1
   simp only [ItemOk] at h2
   obtain ⟨_, no, hno, hfm, hparse⟩ := h2
-  obtain ⟨io, _, hk, hr⟩ := expand_field_eq hparse h3
-  subst hk hr
+  have hk := expand_field_eq hparse h3
+  subst hk
+  have hk : ∀ c ∈ (f.ty.refs ++ (specDocs g no.ns f.docRefs).1 ++ (specDocs g no.ns f.docRefs).2).map Item.node,
+      c.key ∈ st.seen := fun c hc => covered_nil.1 (h4 c hc)
   refine ⟨no, hno, hfm, ?_, ?_⟩
   · intro b hb
-    have := covered_nil.1 (h4 (.node b) (by simp only [List.mem_map, List.mem_append]; exact ⟨b, Or.inl (Or.inl hb), rfl⟩))
-    simpa [Item.key] using this
+    exact kid_seen hk (by simp only [List.mem_map, List.mem_append]; exact ⟨b, Or.inl (Or.inl hb), rfl⟩)
   · intro b hb
     rcases mem_docTargets_split hb with h | h
-    · left
-      have := covered_nil.1 (h4 (.node b) (by simp only [List.mem_map, List.mem_append]; exact ⟨b, Or.inl (Or.inr h), rfl⟩))
-      simpa [Item.key] using this
-    · exact Or.inr (h5 b h)
+    · exact kid_seen hk (by simp only [List.mem_map, List.mem_append]; exact ⟨b, Or.inl (Or.inr h), rfl⟩)
+    · exact kid_seen hk (by simp only [List.mem_map, List.mem_append]; exact ⟨b, Or.inr h, rfl⟩)
 
 /-! ## closedness -/
 
-/-- routes mentioned by the docs of the whitelisted routes and of the namespaces the whitelist names -/
-def seedDocRoutes (g : Graph) (wl : Whitelist) : List Id :=
-  wl.routes.flatMap (fun p => (nsDocSeeds g p.1).filter g.isRouteId
-      ++ (wlRouteIds g p.1 p.2).flatMap (fun r => (specDocs g p.1 (docsOf g r)).2))
-  ++ wl.datatypes.flatMap (fun p => (nsDocSeeds g p.1).filter g.isRouteId)
-
-/-- what the finished walk accounts for: marked nodes, and the routes it knows of -/
+/-- what the finished walk accounts for: marked nodes, and the whitelisted routes -/
 def Known (g : Graph) (wl : Whitelist) (st : St) (i : Id) : Prop :=
-  Item.node i ∈ st.seen ∨ i ∈ wlAllRouteIds g wl ∨ i ∈ st.routes ∨ i ∈ seedDocRoutes g wl
+  Item.node i ∈ st.seen ∨ i ∈ wlAllRouteIds g wl
 
 theorem unwrapsTo_closed {g : Graph} {T : Id → Prop}
     (halias : ∀ a n b, T a → g.node? a = some n → n.isAlias = true → b ∈ n.target.refs → T b)
@@ -158,7 +138,6 @@ theorem unwrapsTo_closed {g : Graph} {T : Id → Prop}
 structure FilterRun (g : Graph) (wl : Whitelist) (st : St) (start wlRoutes : List Id) : Prop where
   inv : Inv g (start.map .node) [] st
   wlr : wlRoutes = wlAllRouteIds g wl
-  routesDoc : ∀ r ∈ st.routes, r ∈ docRoutes g
   /-- the starting points, at specification level -/
   startNs : ∀ p ∈ wl.routes ++ wl.datatypes, ∀ b ∈ nsStart g p.1, b ∈ start
   nsOk : ∀ p ∈ wl.routes ++ wl.datatypes, ∃ n, g.ns? p.1 = some n
@@ -170,17 +149,17 @@ theorem filterRun_of_ok {g : Graph} (hwf : g.refsOk = true) (hda : docsAgree g =
     ∃ st wlRoutes, FilterRun g wl st r.start wlRoutes ∧ r.types = st.types ∧
       r.routes = addAll [] (wlRoutes ++ st.routes) ∧ r.seen = st.seen ∧
       filterAliases g st.types (g.dfsFuel 0) g.allAliases = .ok r.aliases := by
-  obtain ⟨canon, rts, wlRoutes, dts, st, hc, hr, hd, hst, e1, e2, e3, e4, e5⟩ := whitelistFilter_ok h
+  obtain ⟨canon, rs, ds, st, hc, hr, hd, hst, e1, e2, e3, e4, e5⟩ := whitelistFilter_ok h
   obtain ⟨i1, i2, i3⟩ := routeWhitelistSeeds_spec hwf hda hc hr
   obtain ⟨d1, d2⟩ := datatypeWhitelistSeeds_spec hda hd
-  have hinv0 : Inv g ((rts ++ dts).map .node) ((rts ++ dts).map .node) {} := by
+  have hinv0 : Inv g ((startOf rs ds).map .node) ((startOf rs ds).map .node) {} := by
     refine ⟨?_, ?_, ?_, ?_, ?_⟩
     · intro it hit
       simp only [List.mem_map] at hit
       obtain ⟨b, _, rfl⟩ := hit
       trivial
     · intro k hk; cases hk
-    · intro r hr; cases hr
+    · intro i; simp
     · intro i; simp
     · intro it hit
       refine Or.inr ?_
@@ -188,75 +167,43 @@ theorem filterRun_of_ok {g : Graph} (hwf : g.refsOk = true) (hda : docsAgree g =
       obtain ⟨b, hb, rfl⟩ := hit
       exact ⟨.node b, ⟨b, hb, rfl⟩, rfl⟩
   have hinv := inv_final hwf hda hst hinv0
-  have hsound := dfs_sound hwf hda (T := fun _ => True) (fun _ _ _ _ => trivial) hst
-    (by
-      intro it hit
-      simp only [List.mem_map] at hit
-      obtain ⟨b, _, rfl⟩ := hit
-      trivial)
-    (by intro t ht; cases ht) (by intro t ht; cases ht)
-  refine ⟨st, wlRoutes, ⟨?_, ?_, ?_, ?_, ?_, ?_, ?_⟩, e1, e2, e4, e3⟩
+  refine ⟨st, rs.ids, ⟨?_, ?_, ?_, ?_, ?_, ?_⟩, e1, e2, e4, e3⟩
   · rw [e5]; exact hinv
   · rw [i1]; rfl
-  · intro r hr; exact (hsound.2 r hr).2
   · intro p hp b hb
     rw [e5]
     rcases List.mem_append.1 hp with hp | hp
-    · exact List.mem_append_left _ ((i3 b).2 ⟨p, hp, Or.inl hb⟩)
-    · exact List.mem_append_right _ ((d2 b).2 ⟨p, hp, Or.inl hb⟩)
+    · exact mem_startOf.2 (Or.inl ((i3 b).2 ⟨p, hp, Or.inl hb⟩))
+    · exact mem_startOf.2 (Or.inr ((d2 b).2 ⟨p, hp, Or.inl hb⟩))
   · intro p hp
     rcases List.mem_append.1 hp with hp | hp
     · exact i2 p hp
     · exact d1 p hp
   · intro p hp r hr b hb
     rw [e5]
-    exact List.mem_append_left _ ((i3 b).2 ⟨p, hp, Or.inr ⟨r, hr, hb⟩⟩)
+    exact mem_startOf.2 (Or.inl ((i3 b).2 ⟨p, hp, Or.inr ⟨r, hr, hb⟩⟩))
   · intro p hp b hb
     rw [e5]
-    exact List.mem_append_right _ ((d2 b).2 ⟨p, hp, Or.inr hb⟩)
+    exact mem_startOf.2 (Or.inr ((d2 b).2 ⟨p, hp, Or.inr hb⟩))
 
 theorem start_seen {g : Graph} {wl : Whitelist} {st : St} {start wlRoutes : List Id}
     (hrun : FilterRun g wl st start wlRoutes) {b : Id} (hb : b ∈ start) : Item.node b ∈ st.seen := by
   have := covered_nil.1 (hrun.inv.init (.node b) (List.mem_map_of_mem hb))
   simpa [Item.key] using this
 
-/-- every route the walk knows of is a route node -/
-theorem known_route_kind {g : Graph} (hwf : g.refsOk = true) {wl : Whitelist} {st : St} {start wlRoutes : List Id}
-    (hrun : FilterRun g wl st start wlRoutes) {a : Id}
-    (ha : a ∈ wlAllRouteIds g wl ∨ a ∈ st.routes ∨ a ∈ seedDocRoutes g wl) : g.isRouteId a = true := by
-  rcases ha with ha | ha | ha
-  · simp only [wlAllRouteIds, List.mem_flatMap] at ha
-    obtain ⟨p, _, hr⟩ := ha
-    obtain ⟨nd, hnd, hk, _⟩ := wlRouteIds_route hwf hr
-    exact isRouteId_iff.2 ⟨nd, hnd, hk⟩
-  · have := hrun.routesDoc a ha
-    simp only [docRoutes, List.mem_filter] at this
-    exact this.2
-  · simp only [seedDocRoutes, List.mem_append, List.mem_flatMap, List.mem_filter] at ha
-    rcases ha with ⟨p, _, h | ⟨r, _, h⟩⟩ | ⟨p, _, h⟩
-    · exact h.2
-    · exact (mem_specDocs_routes.1 h).2
-    · exact h.2
-
-theorem seedDocRoutes_docRoutes {g : Graph} (hwf : g.refsOk = true) {wl : Whitelist} {a : Id}
-    (ha : a ∈ seedDocRoutes g wl) : a ∈ docRoutes g := by
-  have hns : ∀ ns, a ∈ (nsDocSeeds g ns).filter g.isRouteId → a ∈ docRoutes g := by
-    intro ns h
-    simp only [List.mem_filter, nsDocSeeds] at h
-    obtain ⟨h1, h2⟩ := h
-    split at h1
-    · rename_i n hn
-      simp only [docRoutes, List.mem_filter, List.mem_append, List.mem_flatMap]
-      refine ⟨Or.inr ⟨n, (ns?_name hn).1, ?_⟩, h2⟩
-      rw [(ns?_name hn).2]; exact h1
-    · simp at h1
-  simp only [seedDocRoutes, List.mem_append, List.mem_flatMap] at ha
-  rcases ha with ⟨p, _, h | ⟨r, hr, h⟩⟩ | ⟨p, _, h⟩
-  · exact hns _ h
-  · obtain ⟨nd, hnd, _, hnsd⟩ := wlRouteIds_route hwf hr
-    have : a ∈ (specDocs g nd.ns nd.docRefs).2 := by simpa [docsOf, hnd, hnsd] using h
-    exact mem_docRoutes_node hnd this
-  · exact hns _ h
+/-- a whitelisted route is a route node -/
+theorem wl_route_kind {g : Graph} (hwf : g.refsOk = true) {wl : Whitelist} {a : Id}
+    (ha : a ∈ wlAllRouteIds g wl) : ∃ p ∈ wl.routes, a ∈ wlRouteIds g p.1 p.2 ∧
+      ∃ nd, g.node? a = some nd ∧ nd.kind = .route ∧ nd.ns = p.1 := by
+  simp only [wlAllRouteIds, List.mem_flatMap] at ha
+  obtain ⟨p, hp, hr⟩ := ha
+  obtain ⟨nd, hnd, hk, hns⟩ := wlRouteIds_route hwf hr
+  have hkind : nd.kind = .route := by
+    rcases kind_cases nd with h | h | h
+    · simp [hk] at h
+    · simp [hk] at h
+    · exact h.2.2.2
+  exact ⟨p, hp, hr, nd, hnd, hkind, hns⟩
 
 /-- a marked alias: its target is marked -/
 theorem known_alias {g : Graph} (hwf : g.refsOk = true) (hda : docsAgree g = true) {wl : Whitelist} {st : St}
@@ -264,95 +211,84 @@ theorem known_alias {g : Graph} (hwf : g.refsOk = true) (hda : docsAgree g = tru
     ∀ a n b, Known g wl st a → g.node? a = some n → n.isAlias = true → b ∈ n.target.refs → Known g wl st b := by
   intro a n b ha hn hal hb
   rcases ha with ha | ha
-  · obtain ⟨kids, rts, he, hk, _⟩ := seen_node hrun.inv ha
+  · obtain ⟨kids, he, hk⟩ := seen_node hrun.inv ha
     have hkind : n.kind = .alias := by
       rcases kind_cases n with h | h | h
       · simp [hal] at h
       · exact h.2.2.2
       · simp [hal] at h
-    obtain ⟨io, _, hkids, _⟩ := expand_node_alias hda hn hkind he
+    have hkids := expand_node_alias hda hn hkind he
     subst hkids
-    have := hk (.node b) (by simp only [List.mem_map, List.mem_append]; exact ⟨b, Or.inl (Or.inl hb), rfl⟩)
-    exact Or.inl (by simpa [Item.key] using this)
-  · obtain ⟨n', hn', hr⟩ := isRouteId_iff.1 (known_route_kind hwf hrun ha)
-    rw [hn] at hn'
-    cases hn'
-    rcases kind_cases n with h | h | h <;> simp [hal, hr] at h
+    exact Or.inl (kid_seen hk (by simp only [List.mem_map, List.mem_append]; exact ⟨b, Or.inl (Or.inl hb), rfl⟩))
+  · obtain ⟨p, _, _, nd, hnd, hkr, _⟩ := wl_route_kind hwf ha
+    rw [hn] at hnd
+    cases hnd
+    simp [Node.isAlias, hkr] at hal
 
-/-- doc references of a marked node -/
+/-- what the doc of a marked node refers to is marked -/
 theorem known_docs_seen {g : Graph} (hda : docsAgree g = true) {wl : Whitelist} {st : St}
     {start wlRoutes : List Id} (hrun : FilterRun g wl st start wlRoutes) :
     ∀ a n, Item.node a ∈ st.seen → g.node? a = some n →
-      ∀ b ∈ docTargets g n.ns n.docRefs, Known g wl st b := by
+      ∀ b ∈ docTargets g n.ns n.docRefs, Item.node b ∈ st.seen := by
   intro a n ha hn b hb
-  obtain ⟨kids, rts, he, hk, hr⟩ := seen_node hrun.inv ha
-  obtain ⟨n', hn', hnr⟩ := expand_node_kind he
-  rw [hn] at hn'; cases hn'
+  obtain ⟨kids, he, hk⟩ := seen_node hrun.inv ha
+  have hsplit := mem_docTargets_split hb
   rcases kind_cases n with h | h | h
-  · obtain ⟨fs, io, _, _, hkids, hrts⟩ := expand_node_type hda hn h.1 he
-    subst hkids hrts
-    rcases mem_docTargets_split hb with hb | hb
-    · have := hk (.node b) (by
-        apply List.mem_append_right
-        simp only [List.mem_map, List.mem_append]
-        exact ⟨b, Or.inl (Or.inl (Or.inr hb)), rfl⟩)
-      exact Or.inl (by simpa [Item.key] using this)
-    · exact Or.inr (Or.inr (Or.inl (hr b hb)))
-  · obtain ⟨io, _, hkids, hrts⟩ := expand_node_alias hda hn h.2.2.2 he
-    subst hkids hrts
-    rcases mem_docTargets_split hb with hb | hb
-    · have := hk (.node b) (by simp only [List.mem_map, List.mem_append]; exact ⟨b, Or.inl (Or.inr hb), rfl⟩)
-      exact Or.inl (by simpa [Item.key] using this)
-    · exact Or.inr (Or.inr (Or.inl (hr b hb)))
-  · simp [hnr] at h
+  · have hkids := expand_node_type hda hn h.1 he
+    subst hkids
+    apply kid_seen hk
+    apply List.mem_append_right
+    simp only [List.mem_map, List.mem_append]
+    rcases hsplit with hb | hb
+    · exact ⟨b, Or.inl (Or.inl (Or.inr hb)), rfl⟩
+    · exact ⟨b, Or.inl (Or.inr hb), rfl⟩
+  · have hkids := expand_node_alias hda hn h.2.2.2 he
+    subst hkids
+    apply kid_seen hk
+    simp only [List.mem_map, List.mem_append]
+    rcases hsplit with hb | hb
+    · exact ⟨b, Or.inl (Or.inr hb), rfl⟩
+    · exact ⟨b, Or.inr hb, rfl⟩
+  · have hkids := expand_node_route hda hn h.2.2.2 he
+    subst hkids
+    apply kid_seen hk
+    simp only [List.mem_map, List.mem_append]
+    rcases hsplit with hb | hb
+    · exact ⟨b, Or.inl (Or.inr hb), rfl⟩
+    · exact ⟨b, Or.inr hb, rfl⟩
 
 /-- a marked data type: its fields are marked -/
 theorem known_field {g : Graph} (hda : docsAgree g = true) {wl : Whitelist} {st : St}
     {start wlRoutes : List Id} (hrun : FilterRun g wl st start wlRoutes) :
     ∀ a n f, Item.node a ∈ st.seen → g.node? a = some n → n.isType = true → f ∈ n.fields →
       (∀ b ∈ f.ty.refs, Item.node b ∈ st.seen) ∧
-      (∀ b ∈ docTargets g n.ns f.docRefs, Item.node b ∈ st.seen ∨ b ∈ st.routes) := by
+      (∀ b ∈ docTargets g n.ns f.docRefs, Item.node b ∈ st.seen) := by
   intro a n f ha hn ht hf
-  obtain ⟨kids, rts, he, hk, _⟩ := seen_node hrun.inv ha
-  obtain ⟨fs, io, hfs, _, hkids, _⟩ := expand_node_type hda hn ht he
+  obtain ⟨kids, he, hk⟩ := seen_node hrun.inv ha
+  have hkids := expand_node_type hda hn ht he
   subst hkids
-  have hmem := allFields_own hfs hn hf
-  have := hk (.field a f n.ns) (List.mem_append_left _ (List.mem_map.2 ⟨(a, f), hmem, rfl⟩))
+  have := hk (.field a f n.ns) (List.mem_append_left _ (List.mem_map.2 ⟨f, hf, rfl⟩))
   simp only [Item.key] at this
   obtain ⟨no, hno, _, h1, h2⟩ := seen_field hrun.inv this
   rw [hn] at hno; cases hno
   exact ⟨h1, h2⟩
 
-/-- the io types of a route the walk knows of are marked -/
-theorem known_route_io {g : Graph} {wl : Whitelist} {st : St}
-    {start wlRoutes : List Id} (hrun : FilterRun g wl st start wlRoutes) {a : Id}
-    (ha : a ∈ wlAllRouteIds g wl ∨ a ∈ st.routes ∨ a ∈ seedDocRoutes g wl) :
+/-- the signature of a route the walk accounts for is marked -/
+theorem known_route_io {g : Graph} (hwf : g.refsOk = true) (hda : docsAgree g = true) {wl : Whitelist} {st : St}
+    {start wlRoutes : List Id} (hrun : FilterRun g wl st start wlRoutes) {a : Id} {nd : Node}
+    (ha : Known g wl st a) (hnd : g.node? a = some nd) (hk : nd.kind = .route) :
     ∀ c ∈ ioOf g a, Item.node c ∈ st.seen := by
   intro c hc
-  rcases ha with ha | ha | ha
-  · simp only [wlAllRouteIds, List.mem_flatMap] at ha
-    obtain ⟨p, hp, hr⟩ := ha
+  rcases ha with ha | ha
+  · obtain ⟨kids, he, hks⟩ := seen_node hrun.inv ha
+    have hkids := expand_node_route hda hnd hk he
+    subst hkids
+    apply kid_seen hks
+    simp only [ioOf, hnd] at hc
+    simp only [List.mem_map]
+    exact ⟨c, List.mem_append_left _ (List.mem_append_left _ hc), rfl⟩
+  · obtain ⟨p, hp, hr, _⟩ := wl_route_kind hwf ha
     exact start_seen hrun (hrun.startWl p hp a hr c (Or.inl hc))
-  · exact covered_nil.1 (hrun.inv.rio a ha c hc)
-  · simp only [seedDocRoutes, List.mem_append, List.mem_flatMap] at ha
-    have hns : ∀ p ∈ wl.routes ++ wl.datatypes, a ∈ (nsDocSeeds g p.1).filter g.isRouteId →
-        Item.node c ∈ st.seen := by
-      intro p hp h
-      obtain ⟨n, hn⟩ := hrun.nsOk p hp
-      apply start_seen hrun
-      apply hrun.startNs p hp
-      simp only [nsStart, hn, docStart, List.mem_append, List.mem_flatMap]
-      refine Or.inr ⟨a, ?_, hc⟩
-      simp only [List.mem_filter, nsDocSeeds, hn] at h
-      exact mem_specDocs_routes.2 h
-    rcases ha with ⟨p, hp, h | ⟨r, hr, h⟩⟩ | ⟨p, hp, h⟩
-    · exact hns p (List.mem_append_left _ hp) h
-    · apply start_seen hrun
-      apply hrun.startWl p hp r hr c
-      refine Or.inr ?_
-      simp only [docStart, List.mem_append, List.mem_flatMap]
-      exact Or.inr ⟨a, h, hc⟩
-    · exact hns p (List.mem_append_right _ hp) h
 
 /-- the references an item *holds* (no docs, no tag defaults): what a backend dereferences -/
 inductive HardEdge (g : Graph) : Id → Id → Prop where
@@ -364,75 +300,68 @@ inductive HardEdge (g : Graph) : Id → Id → Prop where
   | routeResult {a b n} : g.node? a = some n → n.kind = .route → b ∈ n.result.refs → HardEdge g a b
   | routeError {a b n} : g.node? a = some n → n.kind = .route → b ∈ n.error.refs → HardEdge g a b
 
+/-- a whitelisted route is no data type and no alias -/
+theorem wl_not_type {g : Graph} (hwf : g.refsOk = true) {wl : Whitelist} {a : Id} {n : Node}
+    (ha : a ∈ wlAllRouteIds g wl) (hn : g.node? a = some n) : n.kind = .route := by
+  obtain ⟨_, _, _, nd, hnd, hkr, _⟩ := wl_route_kind hwf ha
+  rw [hn] at hnd; cases hnd; exact hkr
+
 /-- what the walk accounts for is closed under held references: the target is a marked node -/
 theorem known_closed_hard {g : Graph} (hwf : g.refsOk = true) (hda : docsAgree g = true)
     {wl : Whitelist} {st : St} {start wlRoutes : List Id}
     (hrun : FilterRun g wl st start wlRoutes) {a b : Id} (ha : Known g wl st a) (he : HardEdge g a b) :
     Item.node b ∈ st.seen := by
   have hinv := hrun.inv
-  rcases ha with ha | ha
-  · obtain ⟨kids, rts, hex, hk, hr⟩ := seen_node hinv ha
-    obtain ⟨nd, hnd, hnr⟩ := expand_node_kind hex
-    have hnotroute : nd.kind ≠ .route := by
-      intro hk'; simp [Node.isRoute, hk'] at hnr
-    cases he with
-    | fieldType hn ht hf hb =>
-      rw [hnd] at hn; cases hn
-      exact (known_field hda hrun a nd _ ha hnd ht hf).1 b hb
-    | parent hn ht hp =>
-      rw [hnd] at hn; cases hn
-      obtain ⟨fs, io, _, _, hkids, _⟩ := expand_node_type hda hnd ht hex
+  -- a route: whitelisted or marked, its signature is marked
+  have hroute : ∀ n, g.node? a = some n → n.kind = .route → b ∈ ioOf g a → Item.node b ∈ st.seen :=
+    fun n hn hk hb => known_route_io hwf hda hrun ha hn hk b hb
+  cases he with
+  | routeArg hn hkr hb => exact hroute _ hn hkr (by simp [ioOf, hn, hb])
+  | routeResult hn hkr hb => exact hroute _ hn hkr (by simp [ioOf, hn, hb])
+  | routeError hn hkr hb => exact hroute _ hn hkr (by simp [ioOf, hn, hb])
+  | fieldType hn ht hf hb =>
+    rcases ha with ha | ha
+    · exact (known_field hda hrun a _ _ ha hn ht hf).1 b hb
+    · have := wl_not_type hwf ha hn
+      simp [Node.isType, this] at ht
+  | parent hn ht hp =>
+    rcases ha with ha | ha
+    · obtain ⟨kids, hex, hk⟩ := seen_node hinv ha
+      have hkids := expand_node_type hda hn ht hex
       subst hkids
-      have := hk (.node b) (by
-        apply List.mem_append_right
-        simp only [List.mem_map, List.mem_append]
-        exact ⟨b, Or.inl (Or.inl (Or.inl (by simp [hp]))), rfl⟩)
-      simpa [Item.key] using this
-    | subtype hn hks hb =>
-      rw [hnd] at hn; cases hn
-      have ht : nd.isType = true := by simp [Node.isType, hks]
-      obtain ⟨fs, io, _, _, hkids, _⟩ := expand_node_type hda hnd ht hex
+      apply kid_seen hk
+      apply List.mem_append_right
+      simp only [List.mem_map, List.mem_append]
+      exact ⟨b, Or.inl (Or.inl (Or.inl (by simp [hp]))), rfl⟩
+    · have := wl_not_type hwf ha hn
+      simp [Node.isType, this] at ht
+  | subtype hn hks hb =>
+    rename_i n
+    rcases ha with ha | ha
+    · have ht : n.isType = true := by simp [Node.isType, hks]
+      obtain ⟨kids, hex, hk⟩ := seen_node hinv ha
+      have hkids := expand_node_type hda hn ht hex
       subst hkids
-      have := hk (.node b) (by
-        apply List.mem_append_right
-        simp only [List.mem_map, List.mem_append]
-        exact ⟨b, Or.inr (by simp [hks, hb]), rfl⟩)
-      simpa [Item.key] using this
-    | aliasTarget hn hka hb =>
-      rw [hnd] at hn; cases hn
-      obtain ⟨io, _, hkids, _⟩ := expand_node_alias hda hnd hka hex
+      apply kid_seen hk
+      apply List.mem_append_right
+      simp only [List.mem_map, List.mem_append]
+      exact ⟨b, Or.inr (by simp [hks, hb]), rfl⟩
+    · have := wl_not_type hwf ha hn
+      simp [this] at hks
+  | aliasTarget hn hka hb =>
+    rcases ha with ha | ha
+    · obtain ⟨kids, hex, hk⟩ := seen_node hinv ha
+      have hkids := expand_node_alias hda hn hka hex
       subst hkids
-      have := hk (.node b) (by simp only [List.mem_map, List.mem_append]; exact ⟨b, Or.inl (Or.inl hb), rfl⟩)
-      simpa [Item.key] using this
-    | routeArg hn hkr _ => rw [hnd] at hn; cases hn; exact absurd hkr hnotroute
-    | routeResult hn hkr _ => rw [hnd] at hn; cases hn; exact absurd hkr hnotroute
-    | routeError hn hkr _ => rw [hnd] at hn; cases hn; exact absurd hkr hnotroute
-  · obtain ⟨nd, hnd, hkr⟩ := isRouteId_iff.1 (known_route_kind hwf hrun ha)
-    have hkind : nd.kind = .route := by
-      rcases kind_cases nd with h | h | h
-      · simp [hkr] at h
-      · simp [hkr] at h
-      · exact h.2.2.2
-    have hnt : nd.isType = false := by simp [Node.isType, hkind]
-    have hio := known_route_io hrun ha
-    cases he with
-    | fieldType hn ht _ _ => rw [hnd] at hn; cases hn; simp [hnt] at ht
-    | parent hn ht _ => rw [hnd] at hn; cases hn; simp [hnt] at ht
-    | subtype hn hks _ => rw [hnd] at hn; cases hn; simp [hkind] at hks
-    | aliasTarget hn hka _ => rw [hnd] at hn; cases hn; simp [hkind] at hka
-    | routeArg hn _ hb =>
-      rw [hnd] at hn; cases hn
-      exact hio b (by simp [ioOf, hnd, hb])
-    | routeResult hn _ hb =>
-      rw [hnd] at hn; cases hn
-      exact hio b (by simp [ioOf, hnd, hb])
-    | routeError hn _ hb =>
-      rw [hnd] at hn; cases hn
-      exact hio b (by simp [ioOf, hnd, hb])
+      apply kid_seen hk
+      simp only [List.mem_map, List.mem_append]
+      exact ⟨b, Or.inl (Or.inl hb), rfl⟩
+    · have := wl_not_type hwf ha hn
+      simp [this] at hka
 
 /-- COMPLETENESS: what the finished walk accounts for is closed under the dependency relation -/
 theorem known_closed {g : Graph} (hwf : g.refsOk = true) (hda : docsAgree g = true) (htd : tagDefaultsOk g = true)
-    {wl : Whitelist} (hrd : routeDocsClosed g wl = true) {st : St} {start wlRoutes : List Id}
+    {wl : Whitelist} {st : St} {start wlRoutes : List Id}
     (hrun : FilterRun g wl st start wlRoutes) : Closed g (Known g wl st) := by
   intro a b ha he
   cases he with
@@ -456,46 +385,21 @@ theorem known_closed {g : Graph} (hwf : g.refsOk = true) (hda : docsAgree g = tr
     have hbt : b ∈ docTargets g n.ns n.docRefs := by
       simp only [docTargets, List.mem_flatMap]; exact ⟨r, hr', hb⟩
     rcases ha with ha | ha
-    · exact known_docs_seen hda hrun a n ha hn b hbt
-    · -- a route the walk knows of: its doc mentions nothing, unless it is whitelisted
-      by_cases hw : a ∈ wlAllRouteIds g wl
-      · simp only [wlAllRouteIds, List.mem_flatMap] at hw
-        obtain ⟨p, hp, hr⟩ := hw
-        obtain ⟨nd', hnd', _, hns⟩ := wlRouteIds_route hwf hr
-        rw [hn] at hnd'; cases hnd'
-        rcases mem_docTargets_split hbt with h | h
-        · left
-          apply start_seen hrun
-          apply hrun.startWl p hp a hr b
-          refine Or.inr ?_
-          simp only [docStart, List.mem_append]
-          exact Or.inl (by simpa [docsOf, hn, hns] using h)
-        · refine Or.inr (Or.inr (Or.inr ?_))
-          simp only [seedDocRoutes, List.mem_append, List.mem_flatMap]
-          exact Or.inl ⟨p, hp, Or.inr ⟨a, hr, by simpa [docsOf, hn, hns] using h⟩⟩
-      · exfalso
-        have hdr : a ∈ docRoutes g := by
-          rcases ha with ha | ha | ha
-          · exact absurd ha hw
-          · exact hrun.routesDoc a ha
-          · exact seedDocRoutes_docRoutes hwf ha
-        simp only [routeDocsClosed, List.all_eq_true] at hrd
-        have := hrd a hdr
-        simp only [Bool.or_eq_true, hn] at this
-        rcases this with h | h
-        · exact hw (by simpa using h)
-        · have : docTargets g n.ns n.docRefs = [] := by simpa using h
-          rw [this] at hbt; cases hbt
+    · exact Or.inl (known_docs_seen hda hrun a n ha hn b hbt)
+    · -- a whitelisted route: what its doc refers to is a starting point
+      obtain ⟨p, hp, hr, nd', hnd', _, hns⟩ := wl_route_kind hwf ha
+      rw [hn] at hnd'; cases hnd'
+      left
+      apply start_seen hrun
+      apply hrun.startWl p hp a hr b
+      exact Or.inr (mem_docStart.2 (by simpa [docsOf, hn, hns] using hbt))
   | fieldDocRef hn ht hf hr' hb =>
     rename_i n f r
     rcases ha with ha | ha
-    · rcases (known_field hda hrun a n f ha hn ht hf).2 b
-        (by simp only [docTargets, List.mem_flatMap]; exact ⟨r, hr', hb⟩) with h | h
-      · exact Or.inl h
-      · exact Or.inr (Or.inr (Or.inl h))
-    · obtain ⟨nd, hnd, hkr⟩ := isRouteId_iff.1 (known_route_kind hwf hrun ha)
-      rw [hn] at hnd; cases hnd
-      rcases kind_cases n with h | h | h <;> simp [ht, hkr] at h
+    · exact Or.inl ((known_field hda hrun a n f ha hn ht hf).2 b
+        (by simp only [docTargets, List.mem_flatMap]; exact ⟨r, hr', hb⟩))
+    · have := wl_not_type hwf ha hn
+      simp [Node.isType, this] at ht
 
 /-- the specification level seeds are accounted for -/
 theorem seeds_known {g : Graph} {wl : Whitelist} {st : St} {start wlRoutes : List Id}
@@ -504,22 +408,15 @@ theorem seeds_known {g : Graph} {wl : Whitelist} {st : St} {start wlRoutes : Lis
   have hns : ∀ p ∈ wl.routes ++ wl.datatypes, s ∈ nsDocSeeds g p.1 → Known g wl st s := by
     intro p hp h
     obtain ⟨n, hn⟩ := hrun.nsOk p hp
-    cases hr : g.isRouteId s
-    · left
-      apply start_seen hrun
-      apply hrun.startNs p hp
-      simp only [nsStart, hn, docStart, List.mem_append]
-      refine Or.inl (mem_specDocs_types.2 ⟨?_, hr⟩)
-      simpa [nsDocSeeds, hn] using h
-    · refine Or.inr (Or.inr (Or.inr ?_))
-      simp only [seedDocRoutes, List.mem_append, List.mem_flatMap, List.mem_filter]
-      rcases List.mem_append.1 hp with hp | hp
-      · exact Or.inl ⟨p, hp, Or.inl ⟨h, hr⟩⟩
-      · exact Or.inr ⟨p, hp, h, hr⟩
+    left
+    apply start_seen hrun
+    apply hrun.startNs p hp
+    simp only [nsStart, hn]
+    exact mem_docStart.2 (by simpa [nsDocSeeds, hn] using h)
   simp only [seeds, List.mem_append, List.mem_flatMap] at hs
   rcases hs with ⟨p, hp, h | h⟩ | ⟨p, hp, h | h⟩
   · exact hns p (List.mem_append_left _ hp) h
-  · refine Or.inr (Or.inl ?_)
+  · refine Or.inr ?_
     simp only [wlAllRouteIds, List.mem_flatMap]
     exact ⟨p, hp, h⟩
   · exact hns p (List.mem_append_right _ hp) h
